@@ -1,15 +1,21 @@
 import SynapModel.Proto
 import SynapModel.Layers
+import SynapModel.Modules
 import SynapModel.Drv.Optim
 /-! driver commands for BatchNorm / Dropout histories (C13), scalar type `Float` -/
 namespace Synap.Drv.Layers
 open Synap.Proto Synap.Layers
+open Synap.Modules (World Val newMod setAttr regMod setTraining fuelOf sequential)
 
 instance : NatCast Float := ⟨Float.ofNat⟩
 
 structure St where
   cfg : BNCfg Float := ⟨none, 0.0, true⟩
   st : BNState Float := ⟨[], [], none, none, 0, true⟩
+  /-- the module tree the layer lives in (C13 histories that interleave mode switches with attaching / detaching): node 0 is the
+      layer itself; `train()` / `eval()` on any node reach the layer through the registrations that exist AT THAT CALL
+      (`Synap.Modules.setTraining`), attaching / detaching (`setAttr`, `regMod`, container constructors) never changes a mode -/
+  tree : World := World.empty
 
 /-- split row-major data of shape (N, C, L) into per-channel lists, order (n, l) -/
 def toChannels (n c l : Nat) (d : List Float) : List (List Float) :=
@@ -19,6 +25,18 @@ def toChannels (n c l : Nat) (d : List Float) : List (List Float) :=
 def fromChannels (n c l : Nat) (ch : List (List Float)) : List Float :=
   (List.range n).flatMap (fun i => (List.range c).flatMap (fun k =>
     (List.range l).map (fun j => (ch.getD k []).getD (i * l + j) 0.0)))
+
+/-- the layer's mode is the flag of node 0 of the tree -/
+def sync (s : St) (w : World) : St :=
+  { s with tree := w, st := { s.st with training := (w.mods[0]?.map (·.training)).getD s.st.training } }
+
+def bitsEq (a b : List Float) : Bool := a.map (·.toBits) == b.map (·.toBits)
+/-- buffers, counter and mode are the same (bit for bit) -/
+def kept (a b : BNState Float) : Bool := bitsEq a.rm b.rm && bitsEq a.rv b.rv && a.nbt == b.nbt && a.training == b.training
+
+def parseTVal? (v : String) : Option Val :=
+  if v = "none" || v = "other" then some .other
+  else if v.startsWith "m" then ((v.drop 1).toString.toNat?).map .mod else none
 
 def showState (s : BNState Float) : String :=
   s!"rm={showFloatList s.rm} rv={showFloatList s.rv} nbt={s.nbt} training={showBool s.training}"
@@ -48,9 +66,40 @@ def run (s : St) (toks : List String) : St × String :=
     match parseNat? n, parseNat? c, parseNat? l, parseFloatList? d with
     | some n, some c, some l, some d =>
       match bnForward s.cfg s.st (toChannels n c l d) with
-      | (none, st') => ({ s with st := st' }, s!"rejected {showState st'}")
-      | (some out, st') => ({ s with st := st' }, s!"out={showFloatList (fromChannels n c l out)} {showState st'}")
+      | (none, st') => ({ s with st := st' }, s!"rejected kept={showBool (kept s.st st')} {showState st'}")
+      | (some out, st') => ({ s with st := st' }, s!"out={showFloatList (fromChannels n c l out)} kept={showBool (kept s.st st')} {showState st'}")
     | _, _, _, _ => (s, "bad-op")
+  -- a backward pass through any earlier output of the layer: it writes gradients of the input and of the affine parameters; the
+  -- layer's buffers, counter and mode are not among the things it touches (in either mode)
+  | ["bwd"] => (s, s!"kept=1 {showState s.st}")
+  -- the module tree around the layer
+  | ["tree"] => (sync s ⟨[⟨[], [], s.st.training⟩], []⟩, "m0")
+  | ["tnew", kids] =>
+    match parseNatList? kids with
+    | some kids => let (w, m) := sequential s.tree kids; (sync s w, s!"m{m}")
+    | none => (s, "bad-op")
+  | ["tset", m, name, v] =>
+    match parseNat? m, parseTVal? v with
+    | some m, some v => (sync s (setAttr s.tree m name v), "ok")
+    | _, _ => (s, "bad-op")
+  | ["treg", m, name, k] =>
+    match parseNat? m, parseNat? k with
+    | some m, some k => (sync s (regMod s.tree m name k), "ok")
+    | _, _ => (s, "bad-op")
+  | ["tmode", m, v] =>
+    match parseNat? m, parseBool? v with
+    | some m, some v => (sync s (setTraining v (fuelOf s.tree) s.tree m), "ok")
+    | _, _ => (s, "bad-op")
+  | ["tflags"] => (s, showList (fun M => showBool M.training) s.tree.mods)
+  -- Dropout as node 0 of the tree: the mode is the layer's flag
+  | ["tdrop", p, xs, us] =>
+    match parseFloat? p, parseFloatList? xs, parseFloatList? us with
+    | some p, some xs, some us => (s, s!"training={showBool s.st.training} y={showFloatList (dropout p s.st.training xs us)}")
+    | _, _, _ => (s, "bad-op")
+  | ["tdropbw", p, gs, us] =>
+    match parseFloat? p, parseFloatList? gs, parseFloatList? us with
+    | some p, some gs, some us => (s, s!"g={showFloatList (if s.st.training then dropoutBackward p gs us else gs)}")
+    | _, _, _ => (s, "bad-op")
   -- drop <p> <training> <xs> <us>
   | ["drop", p, tr, xs, us] =>
     match parseFloat? p, parseBool? tr, parseFloatList? xs, parseFloatList? us with
